@@ -41,6 +41,7 @@ import (
 	bandtesting "github.com/bandprotocol/chain/v3/testing"
 	feedskeeper "github.com/bandprotocol/chain/v3/x/feeds/keeper"
 	feedstypes "github.com/bandprotocol/chain/v3/x/feeds/types"
+	oracletypes "github.com/bandprotocol/chain/v3/x/oracle/types"
 
 	"verifharness/internal/fx"
 )
@@ -105,7 +106,9 @@ func (p priceService) GetPrices(ids []string) (*bothan.GetPricesResponse, error)
 	}
 	return &bothan.GetPricesResponse{Uuid: "u", Prices: out}, nil
 }
-func (p priceService) GetInfo() (*bothan.GetInfoResponse, error) { return &bothan.GetInfoResponse{}, nil }
+func (p priceService) GetInfo() (*bothan.GetInfoResponse, error) {
+	return &bothan.GetInfoResponse{}, nil
+}
 func (p priceService) PushMonitoringRecords(string, string) error { return nil }
 
 // node
@@ -220,14 +223,19 @@ func runCase(app *fx.App, tr *fx.Trace, r *fx.Rng, caseNo int) {
 	var feeds []feedstypes.Feed
 	var feedOut []any
 	for i := 0; i < nf; i++ {
-		f := feedstypes.Feed{SignalID: sigs[i], Power: 1_000_000, Interval: int64(r.PickInt(40, 60, 120, 300))}
+		f := feedstypes.Feed{SignalID: sigs[i], Power: 1_000_000_000 * int64(r.PickInt(1, 2, 10)), Interval: int64(r.PickInt(40, 60, 120, 300))}
 		feeds = append(feeds, f)
 	}
 	app.FeedsKeeper.SetCurrentFeeds(ctx.WithBlockTime(time.Unix(w.now-10_000, 0)).WithBlockHeight(1), feeds)
 	cf, err := w.QueryCurrentFeeds()
 	fx.Must(err)
+	// the interval that counts is the STORED one (the chain's miss rule reads it); the deviation comes with the query
+	storedInterval := map[string]int64{}
+	for _, f := range feeds {
+		storedInterval[f.SignalID] = f.Interval
+	}
 	for _, f := range cf.CurrentFeeds.Feeds {
-		feedOut = append(feedOut, []any{f.SignalID, f.Interval, f.DeviationBasisPoint})
+		feedOut = append(feedOut, []any{f.SignalID, storedInterval[f.SignalID], f.DeviationBasisPoint})
 	}
 	// grogu
 	quiet := logger.NewLogger(func(string, string) bool { return true })
@@ -250,6 +258,7 @@ func runCase(app *fx.App, tr *fx.Trace, r *fx.Rng, caseNo int) {
 	}
 	ticks := r.Range(20, 60)
 	overlap := r.Chance(1, 2)
+	flaky := r.Chance(1, 4)
 	for t := 0; t < ticks; t++ {
 		w.mu.Lock()
 		w.now += int64(r.PickInt(1, 2, 3, 5, 9))
@@ -306,11 +315,22 @@ func runCase(app *fx.App, tr *fx.Trace, r *fx.Rng, caseNo int) {
 			if cf2, err := w.qs.CurrentFeeds(w.blockCtx(), &feedstypes.QueryCurrentFeedsRequest{}); err == nil {
 				feedsNow = []any{}
 				for _, f := range cf2.CurrentFeeds.Feeds {
-					feedsNow = append(feedsNow, []any{f.SignalID, f.Interval, f.DeviationBasisPoint})
+					feedsNow = append(feedsNow, []any{f.SignalID, storedInterval[f.SignalID], f.DeviationBasisPoint})
 				}
 			}
 			tr.Tag("current-feeds-changed")
 		}
+		// the validator may lose (and regain) its oracle-active status while staying bonded: the chain then refuses its prices
+		if flaky && r.Chance(1, 6) {
+			bctx := w.blockCtx()
+			if app.OracleKeeper.GetValidatorStatus(bctx, val).IsActive {
+				app.OracleKeeper.SetValidatorStatus(bctx, val, oracletypes.NewValidatorStatus(false, bctx.BlockTime()))
+			} else {
+				app.OracleKeeper.SetValidatorStatus(bctx, val, oracletypes.NewValidatorStatus(true, bctx.BlockTime()))
+			}
+			tr.Tag("oracle-status-flipped")
+		}
+		mayFeed := app.FeedsKeeper.ValidateValidatorRequiredToSend(w.blockCtx(), val) == nil
 		fault := ""
 		switch r.Intn(12) {
 		case 0:
@@ -368,7 +388,7 @@ func runCase(app *fx.App, tr *fx.Trace, r *fx.Rng, caseNo int) {
 		if deliv == nil {
 			deliv = []fx.M{}
 		}
-		line := fx.M{"op": "tick", "now": now, "lag": lag, "prices": priceOut, "old": oldOut, "pendingBefore": pendBefore, "nonPending": nonPending, "fault": fault,
+		line := fx.M{"op": "tick", "mayFeed": mayFeed, "now": now, "lag": lag, "prices": priceOut, "old": oldOut, "pendingBefore": pendBefore, "nonPending": nonPending, "fault": fault,
 			"out": fx.M{"ran": ran, "decided": decOut, "deliveries": deliv, "released": released, "waited": waited, "pendingAfter": pendingList(pending)}}
 		if feedsNow != nil {
 			line["feeds"] = feedsNow
@@ -393,6 +413,9 @@ func main() {
 	r := fx.NewRng(a.Seed)
 	for i := 0; i < n; i++ {
 		runCase(app, tr, r.Fork(), i)
+		if i%3 == 2 {
+			querierCase(tr, r.Fork())
+		}
 	}
 	tr.Close()
 	tr.WriteStats(a.Stats, nil)
